@@ -1,5 +1,5 @@
-N = {"quick": 600, "thorough": 6000}
-NPARSE = {"quick": 4000, "thorough": 100000}
+N = {"quick": 480, "thorough": 6000}
+NPARSE = {"quick": 3200, "thorough": 100000}
 PROP = dict(
     id="C13",
     module="FV.C13.Props",
